@@ -43,7 +43,7 @@ def main_c12(tier, seed):
     rep = Report("C12", tier, seed)
     standard_proof_phase(rep, "C12", KNN_FILES + ["Props/C12"])
     rng = random.Random(seed + 12)
-    N = 300 if tier == "quick" else 6000
+    N = 300 if tier == "quick" else 30000
     insts = [gen_kinst(rng, nmin=1 if i % 17 == 0 else 2, nmax=10 if tier == "quick" else 16) for i in range(N)]
     terms, expect, descs, recs = [], [], [], []
     pterms, pexpect, pdescs = [], [], []
@@ -176,7 +176,7 @@ def main_c13(tier, seed):
     rep = Report("C13", tier, seed)
     standard_proof_phase(rep, "C13", KNN_FILES + ["Props/C13"])
     rng = random.Random(seed + 13)
-    N = 300 if tier == "quick" else 6000
+    N = 300 if tier == "quick" else 24000
     terms, expect, descs = [], [], []
     nviol = 0
     flavours = dict(sup=0, sup_force=0, unsup=0)
@@ -255,7 +255,7 @@ def main_c13(tier, seed):
     # end-to-end fits: the objects users get. (a) oracle; (b) correspondence with the model of the final stage
     #   destroy_arcs; create_arcs(best_k); calculate_pdf(best_k); _clustering(...)   run entirely in PrimFloat
     from opfython.subgraphs import KNNSubgraph
-    nfit = 60 if tier == "quick" else 1500
+    nfit = 60 if tier == "quick" else 6000
     fit_ok = 0
     fterms, fexpect, fdescs = [], [], []
     orig_create = KNNSubgraph.create_arcs
@@ -381,7 +381,7 @@ def main_c14(tier, seed, pid="C14"):
     rep = Report(pid, tier, seed)
     standard_proof_phase(rep, pid, KNN_FILES + ["Props/" + pid])
     rng = random.Random(seed + 14)
-    N = 200 if tier == "quick" else 4000
+    N = 200 if tier == "quick" else 15000
     terms, expect, descs = [], [], []
     nviol = 0
     stats = dict(knn=0, unsup=0, queries=0, batch_sizes={})
@@ -477,7 +477,7 @@ def main_c16(tier, seed):
     rep = Report("C16", tier, seed)
     standard_proof_phase(rep, "C16", KNN_FILES + ["Props/C16"])
     rng = random.Random(seed + 16)
-    N = 120 if tier == "quick" else 2500
+    N = 120 if tier == "quick" else 10000
     terms, expect, descs = [], [], []
     nviol = 0
     stats = dict(knn=0, unsup=0, zero_cut_stops=0, all_zero_acc=0)
